@@ -43,6 +43,12 @@ Proof. destruct s; reflexivity. Qed.
 Lemma get_set_other s s' v p : s <> s' -> get_slot s (set_slot s' v p) = get_slot s p.
 Proof. destruct s, s'; intros H; try reflexivity; contradiction. Qed.
 
+Lemma flag_set_same s g : get_flag s (set_flag s g) = true.
+Proof. destruct s; reflexivity. Qed.
+
+Lemma flag_set_other s s' g : s <> s' -> get_flag s (set_flag s' g) = get_flag s g.
+Proof. destruct s, s'; intros H; try reflexivity; contradiction. Qed.
+
 Lemma slot_allowed isReq sl : slot_is_response sl = negb isReq -> In (slot_name sl) (allowed_pseudo isReq).
 Proof.
   destruct isReq, sl; simpl; intros H; try discriminate; unfold request_pseudo, response_pseudo; simpl; auto 10.
@@ -60,22 +66,22 @@ Qed.
 Inductive step_ok (isReq : bool) (st : pst) (f : field) (st' : pst) : Prop :=
 | StepPseudo sl :
     is_pseudo (fname f) = true -> pRegular st = false -> fname f = slot_name sl ->
-    get_slot sl (pPs st) = [] -> slot_is_response sl = negb isReq ->
-    st' = PS (set_slot sl (fvalue f) (pPs st)) (pHeaders st) false (pReadCL st) (pCL st) (pLimit st - fsize f) ->
+    get_flag sl (pSeen st) = false -> slot_is_response sl = negb isReq ->
+    st' = PS (set_slot sl (fvalue f) (pPs st)) (set_flag sl (pSeen st)) (pHeaders st) false (pReadCL st) (pCL st) (pLimit st - fsize f) ->
     step_ok isReq st f st'
 | StepCLFirst :
     is_pseudo (fname f) = false -> validate_regular f = None -> fname f = n_content_length ->
     pReadCL st = false ->
-    st' = PS (pPs st) (pHeaders st) true true (fvalue f) (pLimit st - fsize f) ->
+    st' = PS (pPs st) (pSeen st) (pHeaders st) true true (fvalue f) (pLimit st - fsize f) ->
     step_ok isReq st f st'
 | StepCLAgain :
     is_pseudo (fname f) = false -> validate_regular f = None -> fname f = n_content_length ->
     pReadCL st = true -> pCL st = fvalue f ->
-    st' = PS (pPs st) (pHeaders st) true true (pCL st) (pLimit st - fsize f) ->
+    st' = PS (pPs st) (pSeen st) (pHeaders st) true true (pCL st) (pLimit st - fsize f) ->
     step_ok isReq st f st'
 | StepRegular :
     is_pseudo (fname f) = false -> validate_regular f = None -> fname f <> n_content_length ->
-    st' = PS (pPs st) (hadd (canon (fname f)) (fvalue f) (pHeaders st)) true (pReadCL st) (pCL st) (pLimit st - fsize f) ->
+    st' = PS (pPs st) (pSeen st) (hadd (canon (fname f)) (fvalue f) (pHeaders st)) true (pReadCL st) (pCL st) (pLimit st - fsize f) ->
     step_ok isReq st f st'.
 
 Lemma pstep_inv isReq st f st' :
@@ -92,8 +98,7 @@ Proof.
     + destruct (pRegular st) eqn:Er; [discriminate|].
       destruct (pseudo_slot (fname f)) as [sl|] eqn:Es; [|discriminate].
       apply pseudo_slot_spec in Es.
-      destruct (is_empty (get_slot sl (pPs st))) eqn:Ee; simpl in H; [|discriminate].
-      apply is_empty_true in Ee.
+      destruct (get_flag sl (pSeen st)) eqn:Ee; [discriminate|].
       destruct (isReq && slot_is_response sl) eqn:E1; [discriminate|].
       destruct (negb isReq && negb (slot_is_response sl)) eqn:E2; [discriminate|].
       inversion H; subst st'. eapply StepPseudo; eauto.
@@ -110,7 +115,7 @@ Proof.
     replace (pLimit st - fsize f <? 0) with false by (symmetry; apply Z.ltb_ge; auto).
     rewrite Hlo, Hv. simpl.
     destruct Hs as [sl Hp Hr Hn Hg Hk ->| Hp Hvr Hn Hrc -> | Hp Hvr Hn Hrc Hcl -> | Hp Hvr Hn ->]; rewrite Hp.
-    + rewrite Hr. apply pseudo_slot_spec in Hn. rewrite Hn, Hg. simpl.
+    + rewrite Hr. apply pseudo_slot_spec in Hn. rewrite Hn, Hg.
       rewrite Hk. destruct isReq; simpl; reflexivity.
     + rewrite Hvr, Hn, beq_refl, Hrc. reflexivity.
     + rewrite Hvr, Hn, beq_refl, Hrc. simpl. rewrite Hcl, beq_refl. simpl. reflexivity.
@@ -237,26 +242,25 @@ Qed.
 
 (** ** pseudo-header slots *)
 
-Lemma step_slot_keep isReq st f st' sl :
-  step_ok isReq st f st' -> get_slot sl (pPs st) <> [] -> get_slot sl (pPs st') = get_slot sl (pPs st).
+Lemma step_flag_keep isReq st f st' sl :
+  step_ok isReq st f st' -> get_flag sl (pSeen st) = true -> get_flag sl (pSeen st') = true.
 Proof.
   intros [sl0 _ _ _ Hg _ ->| _ _ _ _ -> | _ _ _ _ _ -> | _ _ _ ->] Hne; simpl; auto.
-  destruct (slot_eq_dec sl sl0) as [->|Hd]; [contradiction|]. apply get_set_other; auto.
+  destruct (slot_eq_dec sl sl0) as [->|Hd]; [apply flag_set_same|]. rewrite flag_set_other; auto.
 Qed.
 
-Lemma ploop_slot_keep isReq st fs st' sl :
-  ploop isReq st fs false = inr st' -> get_slot sl (pPs st) <> [] -> get_slot sl (pPs st') = get_slot sl (pPs st).
+Lemma ploop_flag_keep isReq st fs st' sl :
+  ploop isReq st fs false = inr st' -> get_flag sl (pSeen st) = true -> get_flag sl (pSeen st') = true.
 Proof.
   revert st. induction fs as [|f r IH]; intros st H Hne.
   - simpl in H. inversion H; subst; auto.
   - apply ploop_cons_inv in H as (st1 & Hs & Hr). apply pstep_inv in Hs as (_ & _ & _ & Hs).
-    pose proof (step_slot_keep _ _ _ _ sl Hs Hne) as E. rewrite <- E in *. apply IH; auto.
+    eapply IH; eauto. eapply step_flag_keep; eauto.
 Qed.
 
-(** The emptiness-based duplicate test: an earlier occurrence with a NON-empty value is caught;
-    an earlier occurrence with an empty value is not. *)
-Lemma ploop_pseudo_unique_x isReq st fs st' :
-  ploop isReq st fs false = inr st' -> pseudo_unique_x fs.
+(** The duplicate test by seen-flags: a pseudo-header name never occurs twice, whatever the values. *)
+Lemma ploop_pseudo_unique isReq st fs st' :
+  ploop isReq st fs false = inr st' -> pseudo_unique fs.
 Proof.
   intros H l1 f l2 g l3 -> Hf Hfg.
   apply ploop_app_inv in H as (st1 & _ & H).
@@ -265,12 +269,11 @@ Proof.
   apply ploop_cons_inv in H as (st4 & Hsg & _). apply pstep_inv in Hsg as (_ & _ & _ & Hsg).
   apply is_pseudo_spec in Hf.
   destruct Hs as [sl Hp Hr Hn Hg Hk ->| Hp _ _ _ _ | Hp _ _ _ _ _ | Hp _ _ _]; try congruence.
-  destruct (fvalue f) as [|c v] eqn:Ev; auto. exfalso.
-  assert (Hne : get_slot sl (pPs (PS (set_slot sl (c :: v) (pPs st1)) (pHeaders st1) false (pReadCL st1) (pCL st1) (pLimit st1 - fsize f))) <> []).
-  { simpl. rewrite get_set_same. discriminate. }
-  pose proof (ploop_slot_keep _ _ _ _ sl H2 Hne) as Hk3. simpl in Hk3. rewrite get_set_same in Hk3.
+  assert (Hset : get_flag sl (pSeen (PS (set_slot sl (fvalue f) (pPs st1)) (set_flag sl (pSeen st1)) (pHeaders st1) false (pReadCL st1) (pCL st1) (pLimit st1 - fsize f))) = true).
+  { simpl. apply flag_set_same. }
+  pose proof (ploop_flag_keep _ _ _ _ sl H2 Hset) as Hk3.
   destruct Hsg as [sl' Hp' Hr' Hn' Hg' Hk' _| Hp' _ _ _ _ | Hp' _ _ _ _ _ | Hp' _ _ _]; try (rewrite <- Hfg in Hp'; congruence).
-  assert (sl' = sl) by (apply slot_name_inj; congruence). subst sl'. rewrite Hk3 in Hg'. discriminate.
+  assert (sl' = sl) by (apply slot_name_inj; congruence). subst sl'. congruence.
 Qed.
 
 Definition last_value_from (n : bytes) (fs : list field) (init : bytes) : bytes :=
